@@ -323,6 +323,9 @@ def sweep_cells(tier):
     for m in E3_NAMES:
         for ci in range(len(E3_CANON[m])):
             cells.append([m, ci])
+    # the same single-fault and two-fault sweeps with replies that are already buffered when write() returns
+    for m in ('command', 'query', 'query_statusbyte', 'var_read_int32', 'motors_enable', 'write_nickname'):
+        cells.append([m, 0, 'instant'])
     cells.append(['_history', 0])
     return cells
 
@@ -391,9 +394,11 @@ def sweep_expand(cell):
         for scn in history_scenarios():
             yield scn
         return
-    m, ci = cell
+    m, ci = cell[:2]
     a, k = E3_CANON[m][ci]
     base = base_scenario(m, a, k)
+    if len(cell) > 2:
+        base['world'] = dict(base['world'], reply_latency=cell[2])
     recs, _ = discover(base)
     rec = recs[3]
     excs = EXC_SERIAL if m in SERIAL_ONLY else EXC_ALL
